@@ -9,7 +9,11 @@
 (*                          parent = i: spawned by task i when it starts    *)
 (*   kind: "ok" | "e1" | "e2" (returns that error) | "panic"                *)
 (*       | "wait_ok" | "wait_e3" (first waits for cancellation)             *)
-(* plus the body's own result and whether the caller cancels from outside.  *)
+(* plus the body's own result ("ok", the error "e0", or a panic of the root *)
+(* task itself) and whether the caller cancels from outside. The same       *)
+(* programs are run as async scopes (scope::run!, spawn / spawn_bg) and as  *)
+(* blocking scopes (scope::run_blocking!, spawn_blocking /                  *)
+(* spawn_bg_blocking, mod.rs:316-345): the specification is the same.       *)
 (* outer = TRUE stands for EVERY way the caller's context can end while the *)
 (* scope runs (ctx/mod.rs:196-260): its own deadline passes (under a        *)
 (* deadline-less parent, or a tighter deadline under a parent with a later  *)
@@ -23,7 +27,7 @@
 (***************************************************************************)
 EXTENDS Naturals, Sequences, FiniteSets
 
-CONSTANTS Programs         \* set of [tasks: Seq(task), body: "ok"|"e0", outer: BOOLEAN]
+CONSTANTS Programs         \* set of [tasks: Seq(task), body: "ok"|"e0"|"panic", outer: BOOLEAN]
 
 VARIABLES prog, st, slot, cancelled, mainsAlive, outerDone
 vars == <<prog, st, slot, cancelled, mainsAlive, outerDone>>
@@ -110,6 +114,6 @@ NoStuck == (~AllDone /\ ~ENABLED (BodySpawn \/ BodyFinish \/ \E i \in 1..N(prog)
 (* the outcome is a failure of some task, never invented; panic dominates *)
 OutcomeSound == AllDone =>
     /\ (Outcome = "ok" <=> (prog.body = "ok" /\ \A i \in 1..N(prog) : ~IsFail(Result(prog.tasks[i].kind))))
-    /\ ((\E i \in 1..N(prog) : prog.tasks[i].kind = "panic") => Outcome = "panic")
+    /\ ((prog.body = "panic" \/ \E i \in 1..N(prog) : prog.tasks[i].kind = "panic") => Outcome = "panic")
     /\ (Outcome \notin {"ok", "panic"} => (Outcome = prog.body \/ \E i \in 1..N(prog) : Result(prog.tasks[i].kind) = Outcome))
 =============================================================================
